@@ -331,4 +331,407 @@ theorem mapE_ok {α β} (g : α → M β) : ∀ (xs : List α) (ys : List β), m
         | zero => simpa using hy
         | succ k => simpa using e k (by simpa using h1) (by simpa using h2)
 
+/-! ## building blocks of the operators -/
+
+/-- all of a list of Booleans that are each `b` (the list non-empty or not), and-ed to `b` -/
+theorem and_all_const {α} (b : Bool) (l : List α) (p : α → Bool) (h : ∀ x ∈ l, p x = b) :
+    (b && l.all p) = b := by
+  cases b with
+  | false => simp
+  | true =>
+    simp only [Bool.true_and, List.all_eq_true]
+    exact h
+
+theorem divTerm_ok {f t : Fld} {vs : List String} (hv : f.vdims = some vs) (hvd : hasDup vs = false)
+    (hdims : DimsOk f) {c a : Nat} (hc : c < vs.length) (ha : a < f.mesh.ndim)
+    (hm : Fld.lookup f.vmap (vs.getD c "") = some (f.mesh.region.dims.getD a ""))
+    (h : divTerm f (vs.getD c "") = .ok t) :
+    t.nvdim = 1 ∧ t.mesh = f.mesh ∧ t.valid = f.valid ∧ ∀ i, (t.data.get i).getD 0 0 = D f a 1 c i := by
+  unfold divTerm at h
+  rw [hm] at h
+  simp only [] at h
+  split at h
+  · cases h
+  · rename_i comp hcomp
+    have hk := vdimIndex_getD f vs hv hvd c hc
+    obtain ⟨m1, m2, m3, _, _, _, _, _⟩ := getComp_ok hk hcomp
+    have hdd : DimsOk comp := by unfold DimsOk; rw [m1]; exact hdims
+    rw [← m1] at h ha
+    rw [diffDim_eq comp a 1 hdd.2 (by rw [hdd.1]; exact ha)] at h
+    obtain ⟨d1, d2, d3, _⟩ := diff_ok h
+    refine ⟨by rw [d2, m2], by rw [d1, m1], by rw [d3, m3], ?_⟩
+    intro i
+    rw [diff_data h i 0 (by omega), D_getComp hk hcomp]
+
+theorem curlComp_ok {f t : Fld} {vs : List String} (hv : f.vdims = some vs) (hvd : hasDup vs = false)
+    (hdims : DimsOk f) {d1 e1 d2 e2 c1 c2 : Nat}
+    (he1 : e1 < f.mesh.ndim) (he2 : e2 < f.mesh.ndim) (hc1 : c1 < vs.length) (hc2 : c2 < vs.length)
+    (hr1 : rDimLast f (f.mesh.region.dims.getD d1 "") = some (vs.getD c1 ""))
+    (hr2 : rDimLast f (f.mesh.region.dims.getD d2 "") = some (vs.getD c2 ""))
+    (h : curlComp f (f.mesh.region.dims.getD d1 "") (f.mesh.region.dims.getD e1 "")
+          (f.mesh.region.dims.getD d2 "") (f.mesh.region.dims.getD e2 "") = .ok t) :
+    t.nvdim = 1 ∧ t.mesh = f.mesh ∧ (∀ i, t.valid.get i = f.valid.get i) ∧
+    ∀ i, (t.data.get i).getD 0 0 = D f e1 1 c1 i - D f e2 1 c2 i := by
+  unfold curlComp compOfDim at h
+  rw [hr1, hr2] at h
+  simp only [] at h
+  split at h
+  · cases h
+  · rename_i k1 hk1
+    split at h
+    · cases h
+    · rename_i t1 ht1
+      split at h
+      · cases h
+      · rename_i k2 hk2
+        split at h
+        · cases h
+        · rename_i t2 ht2
+          have i1 := vdimIndex_getD f vs hv hvd c1 hc1
+          have i2 := vdimIndex_getD f vs hv hvd c2 hc2
+          obtain ⟨a1, a2, a3, _, _, _, _, _⟩ := getComp_ok i1 hk1
+          obtain ⟨b1, b2, b3, _, _, _, _, _⟩ := getComp_ok i2 hk2
+          have hd1 : DimsOk k1 := by unfold DimsOk; rw [a1]; exact hdims
+          have hd2 : DimsOk k2 := by unfold DimsOk; rw [b1]; exact hdims
+          rw [← a1] at ht1
+          rw [diffDim_eq k1 e1 1 hd1.2 (by rw [hd1.1, a1]; exact he1)] at ht1
+          rw [← b1] at ht2
+          rw [diffDim_eq k2 e2 1 hd2.2 (by rw [hd2.1, b1]; exact he2)] at ht2
+          obtain ⟨p1, p2, p3, _⟩ := diff_ok ht1
+          obtain ⟨q1, q2, q3, _⟩ := diff_ok ht2
+          obtain ⟨s1, s2, s3, s4⟩ := binop_scalar (by rw [p2, a2]) (by rw [q2, b2]) h
+          refine ⟨s2, by rw [s1, p1, a1], ?_, ?_⟩
+          · intro i; rw [s3 i, p3, q3, a3, b3]; simp
+          · intro i
+            rw [s4 i, diff_data ht1 i 0 (by omega), diff_data ht2 i 0 (by omega),
+              D_getComp i1 hk1, D_getComp i2 hk2]
+
+/-- `sum(h.diff(dim, order=2) for dim in dims)` for a scalar field `h` -/
+theorem lapSum_ok {hf g : Fld} (hdims : DimsOk hf) (hn1 : hf.nvdim = 1) {ts : List Fld}
+    (hts : mapE (fun d => diffDim hf d 2) hf.mesh.region.dims = .ok ts) (h : sumF ts = .ok g) :
+    g.nvdim = 1 ∧ g.mesh = hf.mesh ∧ g.unit = none ∧ (∀ i, g.valid.get i = hf.valid.get i) ∧
+    ∀ i, (g.data.get i).getD 0 0 = sumTo hf.mesh.ndim fun a => D hf a 2 0 i := by
+  obtain ⟨hl, hdup⟩ := hdims
+  obtain ⟨l, e⟩ := mapE_ok _ _ _ hts
+  have hk : ∀ k (hk : k < ts.length), C04.diff hf k 2 true = .ok ts[k] := by
+    intro k hk
+    have := e k (by omega) hk
+    rw [← diffDim_eq hf k 2 hdup (by omega)]
+    rw [List.getD_eq_getElem?_getD, List.getElem?_eq_getElem (by omega)]
+    exact this
+  have hs : ∀ t ∈ ts, t.nvdim = 1 := by
+    intro t htm
+    obtain ⟨k, hk', rfl⟩ := List.getElem_of_mem htm
+    rw [(diff_ok (hk k hk')).2.1, hn1]
+  obtain ⟨t0, h0, s1, s2, s3, s4, s5⟩ := sumF_ok ts g hs h
+  have hpos : 0 < ts.length := by
+    cases ts with
+    | nil => simp at h0
+    | cons _ _ => simp
+  have ht0 : t0 = ts[0] := by
+    cases ts with
+    | nil => simp at h0
+    | cons a b => simp at h0; simp [h0]
+  refine ⟨s2, by rw [s1, ht0, (diff_ok (hk 0 hpos)).1], s3, ?_, ?_⟩
+  · intro i
+    rw [s4 i]
+    have := and_all_const (hf.valid.get i) ts (fun t => t.valid.get i) (by
+      intro t htm
+      obtain ⟨k, hk', rfl⟩ := List.getElem_of_mem htm
+      rw [(diff_ok (hk k hk')).2.2.1])
+    cases hb : hf.valid.get i with
+    | true => rw [hb] at this; simpa using this
+    | false =>
+      have h00 : ts[0].valid.get i = false := by rw [(diff_ok (hk 0 hpos)).2.2.1, hb]
+      simp only [List.all_eq_false]
+      exact ⟨ts[0], List.getElem_mem hpos, by simp [h00]⟩
+  · intro i
+    rw [s5 i, l, hl]
+    apply sumTo_congr
+    intro k hk'
+    have hk'' : k < ts.length := by omega
+    simp only [List.getD_eq_getElem?_getD, List.getElem?_eq_getElem hk'', Option.getD_some]
+    exact diff_data (hk k hk'') i 0 (by omega)
+
+theorem lapComp_ok {f t : Fld} {vs : List String} (hv : f.vdims = some vs) (hvd : hasDup vs = false)
+    (hdims : DimsOk f) {c : Nat} (hc : c < vs.length) (h : lapComp f (vs.getD c "") = .ok t) :
+    t.nvdim = 1 ∧ t.mesh = f.mesh ∧ (∀ i, t.valid.get i = f.valid.get i) ∧
+    ∀ i, (t.data.get i).getD 0 0 = sumTo f.mesh.ndim fun a => D f a 2 c i := by
+  have hk := vdimIndex_getD f vs hv hvd c hc
+  unfold lapComp at h
+  -- the component field is the same at every iteration of the generator
+  cases hcomp : getComp f (vs.getD c "") with
+  | error e =>
+    rw [hcomp] at h
+    simp only [] at h
+    have hpos : 0 < f.mesh.region.dims.length := by
+      cases hq : f.mesh.region.dims with
+      | nil =>
+        rw [hq] at h
+        simp [mapE, sumF] at h
+      | cons _ _ => simp
+    cases hq : f.mesh.region.dims with
+    | nil => rw [hq] at hpos; simp at hpos
+    | cons d ds => rw [hq] at h; simp [mapE] at h
+  | ok comp =>
+    rw [hcomp] at h
+    simp only [] at h
+    obtain ⟨m1, m2, m3, _, _, _, _, _⟩ := getComp_ok hk hcomp
+    have hdd : DimsOk comp := by unfold DimsOk; rw [m1]; exact hdims
+    rw [← m1] at h
+    split at h
+    · cases h
+    · rename_i ts hts
+      obtain ⟨a, b, _, cc, d⟩ := lapSum_ok hdd m2 hts h
+      refine ⟨a, by rw [b, m1], by intro i; rw [cc i, m3], ?_⟩
+      intro i
+      rw [d i, m1]
+      apply sumTo_congr
+      intro k _
+      exact D_getComp hk hcomp k 2 i
+
+/-! ## labels and mapping of results -/
+
+theorem defaultVdims_some (n : Nat) (hn : 2 ≤ n) : ∃ l, Fld.defaultVdims n = some l ∧ l.length = n := by
+  unfold Fld.defaultVdims
+  have h1 : ¬ n = 1 := by omega
+  simp only [h1, if_false]
+  by_cases h3 : n ≤ 3
+  · simp only [h3, if_true]
+    refine ⟨_, rfl, ?_⟩
+    simp; omega
+  · simp only [h3, if_false]
+    exact ⟨_, rfl, by simp⟩
+
+theorem posVmap_length (m : Mesh) (n : Nat) : (posVmap m n).length ≤ n := by
+  unfold posVmap
+  split
+  · simp
+  · split
+    · split
+      · rename_i vs hvs
+        by_cases hn : 2 ≤ n
+        · obtain ⟨l, hl, hlen⟩ := defaultVdims_some n hn
+          rw [hl] at hvs; injection hvs with hvs; subst hvs
+          simp [List.length_zip]; omega
+        · simp [List.length_zip]
+          have : n = 0 := by omega
+          subst this
+          simp [Fld.defaultVdims] at hvs
+          subst hvs; simp
+      · simp
+    · simp
+
+theorem dictUpdate_nil (a : List (String × String)) : dictUpdate a [] = a := rfl
+
+theorem lshift_plain {r d g : Fld} (hd : Plain d) (hr : r.vmap.length ≤ r.nvdim) (hr1 : 1 ≤ r.nvdim)
+    (h : lshift r d = .ok g) :
+    g.vdims = posVdims (r.nvdim + 1) ∧ g.vmap = posVmap r.mesh (r.nvdim + 1) := by
+  obtain ⟨hd1, hd2, hd3⟩ := hd
+  obtain ⟨_, _, _, _, _, _, m7, m8⟩ := lshift_ok h
+  have e1 : lshiftVdims r.vdims d.vdims = none := by
+    rw [hd2]; unfold lshiftVdims; cases r.vdims <;> rfl
+  have e2 : lshiftVmap r d = none := by
+    unfold lshiftVmap
+    rw [hd3, dictUpdate_nil, hd1]
+    have : r.vmap.length ≠ r.nvdim + 1 := by omega
+    simp [this]
+  rw [e1, hd1] at m7
+  rw [e2, hd1] at m8
+  have hv : g.vdims = posVdims (r.nvdim + 1) := by
+    simp only [vdimsSet] at m7
+    injection m7 with m7
+    exact m7.symm
+  refine ⟨hv, ?_⟩
+  rw [hv] at m8
+  unfold vmapSet at m8
+  unfold posVmap posVdims at *
+  have hne : ¬ (r.nvdim + 1 = 1) := by omega
+  simp only [hne, if_false] at m8 ⊢
+  by_cases hnd : r.nvdim + 1 = r.mesh.region.ndim
+  · simp only [hnd, if_true] at m8 ⊢
+    obtain ⟨l, hl, _⟩ := defaultVdims_some (r.mesh.region.ndim) (by omega)
+    rw [hl] at m8 ⊢
+    simp only [] at m8 ⊢
+    injection m8 with m8
+    exact m8.symm
+  · simp only [hnd, if_false] at m8 ⊢
+    injection m8 with m8
+    exact m8.symm
+
+/-- stacking at least one plain scalar onto `acc`: positional labels and mapping -/
+theorem stackGo_meta (ds : List Fld) : ∀ (acc g : Fld), ds ≠ [] → (∀ d ∈ ds, Plain d) →
+    acc.vmap.length ≤ acc.nvdim → 1 ≤ acc.nvdim → stackGo acc ds = .ok g →
+    g.vdims = posVdims g.nvdim ∧ g.vmap = posVmap g.mesh g.nvdim := by
+  induction ds with
+  | nil => intro _ _ h; exact absurd rfl h
+  | cons d ds ih =>
+    intro acc g _ hp ha ha1 h
+    simp only [stackGo] at h
+    split at h
+    · cases h
+    · rename_i r hr
+      obtain ⟨p1, p2⟩ := lshift_plain (hp d (by simp)) ha ha1 hr
+      obtain ⟨m1, _, m2, _⟩ := lshift_ok hr
+      have hd1 : d.nvdim = 1 := (hp d (by simp)).1
+      cases ds with
+      | nil =>
+        simp only [stackGo] at h
+        injection h with h; subst h
+        rw [m2, hd1, m1]; exact ⟨p1, p2⟩
+      | cons d' ds' =>
+        apply ih r g (by simp) (fun x hx => hp x (by simp [hx])) ?_ (by omega) h
+        rw [p2, m2, hd1]
+        exact posVmap_length _ _
+
+theorem getComp_plain {f g : Fld} {l : String} (h : getComp f l = .ok g) : Plain g := by
+  cases hk : f.vdimIndex l with
+  | none => unfold getComp at h; rw [hk] at h; cases h
+  | some k =>
+    obtain ⟨_, m2, _, _, m5, m6, _, _⟩ := getComp_ok hk h
+    exact ⟨m2, m5, m6⟩
+
+theorem diff_plain {f g : Fld} {ax o : Nat} {r : Bool} (hp : Plain f) (h : C04.diff f ax o r = .ok g) : Plain g := by
+  obtain ⟨_, m2, _, m4, m5, _⟩ := diff_ok h
+  exact ⟨by rw [m2, hp.1], by rw [m4, hp.2.1], by rw [m5, hp.2.2]⟩
+
+theorem diffDim_plain {f g : Fld} {d : String} {o : Nat} (hp : Plain f) (h : diffDim f d o = .ok g) : Plain g := by
+  unfold diffDim at h
+  split at h
+  · cases h
+  · split at h
+    · cases h
+    · exact diff_plain hp h
+
+theorem mk_plain {mesh : Mesh} {data : NDA (List Rat)} {valid : NDA Bool} {unit : Option String} {g : Fld}
+    (h : mkFld mesh 1 data valid none (some []) unit = .ok g) : Plain g := by
+  obtain ⟨_, m2, _, _, _, _, m7, m8⟩ := mkFld_ok h
+  have hv : g.vdims = none := by
+    simp [vdimsSet, Fld.defaultVdims] at m7; exact m7.symm
+  refine ⟨m2, hv, ?_⟩
+  rw [hv] at m8
+  simp [vmapSet] at m8
+  exact m8
+
+theorem binop_plain {op : Rat → Rat → Rat} {a b g : Fld} (ha : Plain a) (hb : Plain b)
+    (h : binop op a b = .ok g) : Plain g := by
+  unfold binop at h
+  split at h
+  · cases h
+  · split at h
+    · cases h
+    · rw [ha.1, hb.1, ha.2.1, ha.2.2] at h
+      simp only [Nat.max_self, Nat.lt_irrefl, and_false, if_false] at h
+      exact mk_plain h
+
+theorem addNum_plain {a g : Fld} {q : Rat} (ha : Plain a) (h : addNum a q = .ok g) : Plain g := by
+  unfold addNum at h
+  rw [ha.1, ha.2.1, ha.2.2] at h
+  exact mk_plain h
+
+theorem sumGo_plain (ts : List Fld) : ∀ (acc g : Fld), Plain acc → (∀ t ∈ ts, Plain t) →
+    sumGo acc ts = .ok g → Plain g := by
+  induction ts with
+  | nil => intro acc g ha _ h; simp only [sumGo] at h; injection h with h; subst h; exact ha
+  | cons t ts ih =>
+    intro acc g ha hs h
+    simp only [sumGo] at h
+    split at h
+    · cases h
+    · rename_i r hr
+      exact ih r g (binop_plain ha (hs t (by simp)) hr) (fun x hx => hs x (by simp [hx])) h
+
+theorem sumF_plain {ts : List Fld} {g : Fld} (hs : ∀ t ∈ ts, Plain t) (h : sumF ts = .ok g) : Plain g := by
+  cases ts with
+  | nil => simp [sumF] at h
+  | cons t ts =>
+    simp only [sumF] at h
+    split at h
+    · cases h
+    · rename_i acc hacc
+      exact sumGo_plain ts acc g (addNum_plain (hs t (by simp)) hacc) (fun x hx => hs x (by simp [hx])) h
+
+theorem mapE_all {α β} (g : α → M β) (P : β → Prop) (hg : ∀ x y, g x = .ok y → P y) :
+    ∀ (xs : List α) (ys : List β), mapE g xs = .ok ys → ∀ y ∈ ys, P y := by
+  intro xs ys h y hy
+  obtain ⟨l, e⟩ := mapE_ok g xs ys h
+  obtain ⟨k, hk, rfl⟩ := List.getElem_of_mem hy
+  exact hg _ _ (e k (by omega) hk)
+
+theorem curlComp_plain {f t : Fld} {d1 e1 d2 e2 : String} (h : curlComp f d1 e1 d2 e2 = .ok t) : Plain t := by
+  unfold curlComp compOfDim at h
+  split at h
+  · cases h
+  · rename_i k1 hk1
+    split at h
+    · cases h
+    · rename_i t1 ht1
+      split at h
+      · cases h
+      · rename_i k2 hk2
+        split at h
+        · cases h
+        · rename_i t2 ht2
+          have p1 : Plain k1 := by
+            cases hq : rDimLast f d1 with
+            | none => rw [hq] at hk1; cases hk1
+            | some l => rw [hq] at hk1; exact getComp_plain hk1
+          have p2 : Plain k2 := by
+            cases hq : rDimLast f d2 with
+            | none => rw [hq] at hk2; cases hk2
+            | some l => rw [hq] at hk2; exact getComp_plain hk2
+          exact binop_plain (diffDim_plain p1 ht1) (diffDim_plain p2 ht2) h
+
+theorem lapComp_plain {f t : Fld} {v : String} (h : lapComp f v = .ok t) : Plain t := by
+  unfold lapComp at h
+  split at h
+  · cases h
+  · rename_i ts hts
+    apply sumF_plain _ h
+    apply mapE_all _ Plain _ _ _ hts
+    intro d y hy
+    split at hy
+    · cases hy
+    · rename_i c hc
+      exact diffDim_plain (getComp_plain hc) hy
+
+theorem find?_unique {α} (xs : List α) (P : α → Bool) (p : α) (hp : p ∈ xs) (hP : P p = true)
+    (hu : ∀ q ∈ xs, P q = true → q = p) : xs.find? P = some p := by
+  induction xs with
+  | nil => simp at hp
+  | cons x xs ih =>
+    by_cases hx : P x = true
+    · have := hu x (by simp) hx
+      subst this
+      simp [List.find?, hx]
+    · have hx' : P x = false := by simpa using hx
+      simp only [List.find?, hx']
+      apply ih
+      · cases hp with
+        | head => exact absurd hP hx
+        | tail _ h => exact h
+      · intro q hq; exact hu q (by simp [hq])
+
+/-- one-to-one mapping: the component the reversed mapping pairs with axis `d` is the one
+`vdim_mapping` sends to `d` -/
+theorem rDimLast_of_lookup (f : Fld) (l d : String)
+    (hinj : ∀ p ∈ f.vmap, ∀ q ∈ f.vmap, p.2 = q.2 → p = q)
+    (h : Fld.lookup f.vmap l = some d) : rDimLast f d = some l := by
+  unfold Fld.lookup at h
+  cases hf : f.vmap.find? (fun p => p.1 == l) with
+  | none => rw [hf] at h; cases h
+  | some p =>
+    rw [hf] at h
+    simp only [Option.map_some, Option.some.injEq] at h
+    have hm := List.mem_of_find?_eq_some hf
+    have hk := List.find?_some hf
+    have hk' : p.1 = l := by simpa using hk
+    unfold rDimLast
+    rw [find?_unique f.vmap.reverse (fun q => q.2 == d) p (by simpa using hm) (by simp [h])]
+    · simp [hk']
+    · intro q hq hqd
+      have hq' : q ∈ f.vmap := by simpa using hq
+      have : q.2 = d := by simpa using hqd
+      exact hinj q hq' p hm (by rw [this, h])
+
 end DFV.C05
